@@ -1,5 +1,6 @@
 //! Kani harnesses over grafeo-common / grafeo-core (real code, path dependencies on /repo).
 //! Every harness carries `//@` metadata lines that bin/vcheck reads.
+#![recursion_limit = "512"]
 #![allow(unused, clippy::all, static_mut_refs)]
 #![cfg_attr(kani, feature(core_io_borrowed_buf, read_buf))]
 extern crate alloc;
@@ -12,6 +13,8 @@ pub mod sym;
 mod c16;
 #[cfg(kani)]
 mod c15;
+#[cfg(kani)]
+mod c15w;
 #[cfg(kani)]
 mod c01;
 #[cfg(kani)]
